@@ -1224,6 +1224,19 @@ func (env *Env) evalCall(x *ECall) (Val, error) {
 			return Val{}, err
 		}
 		return Val{Typ: boolT, Ts: []T{Sel(env.st.alive, v.Ts[0])}}, nil
+	case "closed":
+		// closed(ch): the channel has been closed
+		if len(x.Args) != 1 {
+			return Val{}, fmt.Errorf("closed(ch)")
+		}
+		v, err := env.eval(x.Args[0])
+		if err != nil {
+			return Val{}, err
+		}
+		if _, ok := v.Typ.Underlying().(*types.Chan); !ok {
+			return Val{}, fmt.Errorf("closed: not a channel")
+		}
+		return Val{Typ: boolT, Ts: []T{Sel(vc.heapGet(env.st, vc.E.classChanClosed(v.Typ), sortChanClosed), v.Ts[0])}}, nil
 	case "fresh":
 		// fresh(p): p was not allocated at entry
 		v, err := env.eval(x.Args[0])
@@ -1575,6 +1588,14 @@ func (env *Env) havocLoc(loc Expr, st *State) error {
 				return nil
 			case "everything":
 				vc.havocAll(st)
+				return nil
+			case "closed":
+				v, err := env.eval(c.Args[0])
+				if err != nil {
+					return err
+				}
+				ccl := vc.E.classChanClosed(v.Typ)
+				vc.heapSet(st, ccl, sortChanClosed, Sto(vc.heapGet(st, ccl, sortChanClosed), v.Ts[0], vc.fresh("hv", SortBool)))
 				return nil
 			case "class":
 				// class("F|litefs.DB|pageN") – havoc a whole heap class by name
